@@ -567,7 +567,14 @@ class _Int:
         self.watch(tverbs.Union._clone, "Union._clone", on_return=self._clone_ret)
         self.watch(bsql.SqlImpl.compile_ast, "SqlImpl.compile_ast")
         self.watch(bsql.SqlImpl.compile_query, "SqlImpl.compile_query")
-        self.watch(bsql.SqlImpl.compile_col_expr, "SqlImpl.compile_col_expr")
+        def cce_ret(fr, retval):
+            # C19: an operator implementation that falls off its end compiles to NULL silently
+            if retval is None:
+                e = fr.f_locals.get("expr")
+                if e is not None and type(e).__name__ == "ColFn":
+                    SAN.report("C19-none", "compile_col_expr", f"SQL implementation of `{e.op.name}` on {fr.f_locals.get('cls').__name__} returned None")
+
+        self.watch(bsql.SqlImpl.compile_col_expr, "SqlImpl.compile_col_expr", on_return=cce_ret)
         self.watch(bsql.create_aliases, "create_aliases")
         self.watch(bpol.compile_ast, "polars.compile_ast")
         self.watch(bpol.compile_col_expr, "polars.compile_col_expr")
